@@ -13,6 +13,7 @@
 import Parsley.Props.C10
 import Parsley.Lemmas.CatalogDicts
 import Parsley.Lemmas.CatalogValues
+import Parsley.Lemmas.CatalogDate
 namespace Parsley.C10
 open Parsley Parsley.TC Parsley.TC.Spec
 open Parsley.CatalogRules (Doc Node Nodes PageOpts CatOpts kType kPages kCount kParent kMediaBox
@@ -557,11 +558,55 @@ theorem S'_closed (g : Graph) (d : Doc) (hdate : ∀ s, CatalogRules.isDate s = 
 
 /-! ### the theorem -/
 
+/-- the statement relative to the one fact it needs about dates: the rules' date grammar (in which every rendered
+    date lies, `date_bytes_isDate`) is contained in the model of the shipped `DateStringPredicate` -/
 theorem rendered_conforms_of_date (hdate : ∀ s, CatalogRules.isDate s = PdfDate.dateOK s) (d : Doc)
     (hok : d.ok = true) :
     Conforms (CatalogRules.render d).1 shippedCtx (CatalogRules.render d).2 shippedCat :=
   conforms_of_invariant _ shippedCtx (S' d)
     (S'_closed d.graph d hdate (graph_lookup_root d) (graph_lookup_sub d hok) (graph_lookup_outlines d hok)
       (graph_lookup_metadata d hok)) _ _ S'.cat
+
+/-- For EVERY well-formed document -- any shape, fan-out and depth of the page tree, any object numbers and /Count
+    values, and ANY optional entries from the menu of Spec/CatalogRules.lean on the catalog, on every page and on
+    every template -- the rendered catalog conforms to the regenerated shipped specification. -/
+theorem rendered_conforms (d : Doc) (hok : d.ok = true) :
+    Conforms (CatalogRules.render d).1 shippedCtx (CatalogRules.render d).2 shippedCat :=
+  rendered_conforms_of_date date_recogniser_eq_regex_shape d hok
+
+/-! ### non-vacuity: a document with ALL optional entries on the catalog, on a page and on a template
+  (the third document of `fixedDocs` in Driver/C10.lean) -/
+
+def wRect : Rect := ⟨.int 0, .int 0, .real 612 1, .int 792⟩
+def wDate : Date :=
+  ⟨⟨2020, by decide⟩, some ⟨11, by decide⟩, some ⟨30, by decide⟩, some ⟨23, by decide⟩, some ⟨59, by decide⟩,
+   some ⟨59, by decide⟩, some ⟨⟨1, by decide⟩, some ⟨8, by decide⟩, some ⟨0, by decide⟩, true⟩⟩
+/-- /Annots [901 0 R] /CropBox /ID (id) /LastModified (D:20201231235959-08'00') /MediaBox /Rotate 90 /Tabs /S
+    /UserUnit 1.5 -/
+def wPageOpts : PageOpts :=
+  ⟨some [901], some wRect, some [0x69, 0x64], some wDate, some wRect, some 90, some ⟨2, by decide⟩, some (.real 3 2)⟩
+/-- /Lang (en) /Metadata 20 0 R /Names << /Dests leaf /EmbeddedFiles inner+limits >> /NeedsRendering true
+    /OpenAction [] /Outlines 21 0 R /PageLabels leaf+limits /PageLayout /OneColumn /PageMode /FullScreen
+    /Version /1.7 -/
+def wCatOpts : CatOpts :=
+  ⟨some [0x65, 0x6E], some 20, some (.leaf [([0x61], 801)] none), some (.inner [802] (some ([0x61], [0x62]))),
+   some true, some true, some 21, some (.leaf [(0, 803), (5, 804)] (some (0, 5))), some ⟨1, by decide⟩,
+   some ⟨3, by decide⟩, some [0x31, 0x2E, 0x37]⟩
+def wDocFull : Doc :=
+  ⟨wCatOpts, 1, 3, Nodes.ofList [.page 2 wPageOpts, .tmpl 3 wPageOpts,
+    .pages 4 1 (Nodes.ofList [.page 5 PageOpts.none])]⟩
+
+example : Conforms (CatalogRules.render wDocFull).1 shippedCtx (CatalogRules.render wDocFull).2 shippedCat :=
+  rendered_conforms wDocFull (by decide)
+
+/-- the witness really carries the optional entries, and the executable reading agrees at a finite depth -/
+example :
+    (match (CatalogRules.render wDocFull).2 with | .dict kvs => kvs.keys.length | _ => 0) = 12 ∧
+    (match Graph.lookup (CatalogRules.render wDocFull).1 (2, 0) with
+      | some (.dict kvs) => kvs.keys.length | _ => 0) = 10 ∧
+    (match Graph.lookup (CatalogRules.render wDocFull).1 (3, 0) with
+      | some (.dict kvs) => kvs.keys.length | _ => 0) = 9 ∧
+    conf (CatalogRules.render wDocFull).1 shippedCtx 30 (CatalogRules.render wDocFull).2 shippedCat = true := by
+  decide +kernel
 
 end Parsley.C10
